@@ -36,6 +36,9 @@ HOSTILE = [
     # and names below a regular file (ENOTDIR), a dangling link and a link loop outside the root
     "/../private/" + "x" * 300, "/docs/../../private/" + "y" * 256, "/../private/sub/" + "z" * 4200, "/../secret.txt/below",
     "/../private|/MAILDIR-MESSAGE/1", "/..|/MAILDIR-MESSAGE/1", "/..?", "/../private/" + "x" * 300 + "|/MBOX-MESSAGE/1",
+    # characters that compatibility normalisation (NFKC) or case folding turns into dots and slashes: they are names, not separators
+    "/\u2025/secret.txt", "/\uff0e\uff0e/secret.txt", "/\u2024\u2024/secret.txt", "/..\uff0fsecret.txt", "/docs/\u2025/\u2025/secret.txt",
+    "/\u2025|/MAILDIR-MESSAGE/1", "/\ufe52\ufe52/secret.txt", "/\u2215../secret.txt",
 ]
 
 
@@ -358,6 +361,8 @@ def oracle(ctx, res):
                     for layers in layer_opts:
                         if layers == 0 and any(c in s for c in " \t\r\n"):
                             continue
+                        if layers == 0 and p == "spartan" and any(ord(c) > 127 for c in s):
+                            continue        # a Spartan request line is ASCII: raw non-ASCII bytes are not a Spartan request
                         gp = rng.choice(["+", "!", "$"]) if p == "gopherp" else "+"
                         try:
                             rq = reqs.build(p, s, layers=layers, gplus=gp)
